@@ -305,13 +305,13 @@ fn enumerate(_tier: Tier, idx: u32, of: u32, cx: &mut Cx) -> CaseResult {
         }
         crate::engine::force_remove(&sub);
     }
-    // more than 1000 blocks: one file of 300 000 bytes stored in 100-byte blocks; one block
+    // more than 10 000 blocks: one file of 1 300 000 bytes stored in 100-byte blocks; one block
     // overwritten with garbage of equal length must be reported by full validate
     crate::engine::heartbeat();
     let m = crate::probes::plain_meta();
     let mut t = tree::Tree(Default::default());
     t.0.insert("/".into(), tree::Node { kind: tree::Kind::Dir, meta: tree::Meta { mode: 0o755, ..m } });
-    t.0.insert("/many-blocks".into(), tree::Node { kind: tree::Kind::File { pool: 5, len: 300_000 }, meta: m });
+    t.0.insert("/many-blocks".into(), tree::Node { kind: tree::Kind::File { pool: 5, len: 1_300_000 }, meta: m });
     let sub = cx.dir("many-blocks");
     std::fs::create_dir_all(&sub).unwrap();
     let w = World::new(&sub, &t);
@@ -322,7 +322,7 @@ fn enumerate(_tier: Tier, idx: u32, of: u32, cx: &mut Cx) -> CaseResult {
     let pristine = sub.join("pristine");
     copy_dir(&w.arch, &pristine);
     let pre = format::scan(&pristine);
-    ensure!(pre.blocks.len() > 2500, "C09/harness/probe", "only {} blocks", pre.blocks.len());
+    ensure!(pre.blocks.len() > 10_500, "C09/harness/probe", "only {} blocks", pre.blocks.len());
     let blocks: Vec<&String> = pre.blocks.values().map(|b| &b.relpath).collect();
     for i in [0usize, blocks.len() / 3, blocks.len() / 2, blocks.len() - 1] {
         crate::engine::heartbeat();
@@ -334,7 +334,7 @@ fn enumerate(_tier: Tier, idx: u32, of: u32, cx: &mut Cx) -> CaseResult {
         ensure!(
             v.reported_error(),
             "C09/damage-not-reported/full/block/garbage/probe-many-blocks",
-            "block {} of a 3000-block archive overwritten with garbage; full validate reported nothing",
+            "block {} of a 13 000-block archive overwritten with garbage; full validate reported nothing",
             blocks[i]
         );
         cx.add_evals(1);
@@ -348,7 +348,7 @@ pub fn prop() -> Prop<Case> {
     Prop {
         id: "C09",
         level: "fault_enumeration",
-        rule: "two generated case kinds. Healthy: history as C02 (interruptions are stop-the-world before a storage operation; steps during which a band without header exists are skipped) with validate(full) and validate(quick) after every archive operation: must return Ok with no monitor error and no ERROR event. Damaged: archive from a history of <=5 ops; inner domain enumerated: every file of the archive (header, heads, tails, hunks, blocks) x {delete, truncate to 0, truncate to half, overwrite with garbage of equal length} + generated bit flips for blocks, BANDTAIL deletion excluded; for each, every complete version is restored and compared with its model snapshot and every interrupted version that has a head is restored and compared with its own pre-damage restore (deleting the last hunk of an interrupted version is exempt: indistinguishable from an earlier interruption), and if any no longer restores as before full validate must report (Err, monitor error or ERROR event), and for deletions quick validate too. Non-trivial inner = damage that changes some restore (no-effect damages are counted separately in the histogram); non-trivial healthy case = >=2 versions with an interrupted band or a delete/gc; inner values distinct by construction. Fixed scale probes per run: validate silent on a healthy 10 015-hunk version and on multi-MiB blocks; hunks 9 999, 10 000 and the last deleted must each be reported by full and quick validate; and in an archive of 3000 blocks four garbled blocks must each be reported by full validate",
+        rule: "two generated case kinds. Healthy: history as C02 (interruptions are stop-the-world before a storage operation; steps during which a band without header exists are skipped) with validate(full) and validate(quick) after every archive operation: must return Ok with no monitor error and no ERROR event. Damaged: archive from a history of <=5 ops; inner domain enumerated: every file of the archive (header, heads, tails, hunks, blocks) x {delete, truncate to 0, truncate to half, overwrite with garbage of equal length} + generated bit flips for blocks, BANDTAIL deletion excluded; for each, every complete version is restored and compared with its model snapshot and every interrupted version that has a head is restored and compared with its own pre-damage restore (deleting the last hunk of an interrupted version is exempt: indistinguishable from an earlier interruption), and if any no longer restores as before full validate must report (Err, monitor error or ERROR event), and for deletions quick validate too. Non-trivial inner = damage that changes some restore (no-effect damages are counted separately in the histogram); non-trivial healthy case = >=2 versions with an interrupted band or a delete/gc; inner values distinct by construction. Fixed scale probes per run: validate silent on a healthy 10 015-hunk version and on multi-MiB blocks; hunks 9 999, 10 000 and the last deleted must each be reported by full and quick validate; and in an archive of 13 000 blocks four garbled blocks (first, one third, half, last in name order) must each be reported by full validate",
         assumptions: &[
             "'reported' is lenient: Err, a Monitor error, or a tracing event at ERROR level",
             "zero-length leftovers of killed writes are not part of the healthy side",
